@@ -89,6 +89,9 @@ static bool map_inv(const m_map_t *m, size_t T) {
         if (d >= (T >> 1)) return false;                                        /* within probe length of its home slot */
         for (size_t j = 0; j < V_T; j++) if (j < d && !ids[(home + j) & (T - 1)]) return false;         /* no hole before it */
     }
+    /* load factor: hashmap_put() doubles the table BEFORE inserting when table_size <= len + len/3, so a table of T slots never holds more than the largest n with
+     * (n-1) + (n-1)/3 < T entries (3 of 4, 6 of 8); fuller tables are not reachable through the API (and the probe loops are not meant to cope with them) */
+    if (live > 0 && (live - 1) + (live - 1) / 3 >= T) return false;
     return live == m->length;
 }
 static void *view_get(const m_map_t *m, unsigned id) {          /* dictionary view, by direct scan */
@@ -201,10 +204,12 @@ void h_mb_findslot(void) {
     if (g_live0[vin_x]) V_CHECK("C05.find-returns-the-entry-with-the-key", e != NULL && e->key != NULL && slot_id(e) == vin_x);
     else if (e != NULL) {
         V_CHECK("C05.find-empty-returns-insertable-slot", e->key == NULL && e >= m->table && e < m->table + V_T);
-        /* storing the key there keeps the invariant */
-        e->key = g_qkey[vin_x]; e->data = V_VAL(vin_x); m->length++;
-        bool inv = map_inv(m, V_T);
-        V_CHECK("C05.representation-invariant-preserved", inv);
+        /* storing the key there keeps the invariant (hashmap_put() only does so below the load threshold; above it, it rehashes first) */
+        if (m->table_size > g_len0 + g_len0 / 3) {
+            e->key = g_qkey[vin_x]; e->data = V_VAL(vin_x); m->length++;
+            bool inv = map_inv(m, V_T);
+            V_CHECK("C05.representation-invariant-preserved", inv);
+        }
     }
     V_COVER("findslot-hit", g_live0[vin_x]); V_COVER("findslot-empty", !g_live0[vin_x] && e != NULL); V_COVER("findslot-full-path", !g_live0[vin_x] && e == NULL);
     V_CANARY();
